@@ -81,8 +81,13 @@ def gen_uist_scenario(rng, n_ops=None, malformed=False, batch=None, weird=False)
     n_ops = n_ops or rng.randint(6, 40)
     if batch:
         # one large batch of a given arrangement class, then ticks
-        for o in batch:
-            ops.append(dict(op="insert", order=o))
+        if len(batch) > 300:
+            # one step for the whole batch but its last order (the per-insert snapshots are quadratic in the batch size)
+            ops.append(dict(op="insert_many", orders=batch[:-1]))
+            ops.append(dict(op="insert", order=batch[-1]))
+        else:
+            for o in batch:
+                ops.append(dict(op="insert", order=o))
         for _ in range(3):
             ops.append(dict(op="tick", quotes=gen_quotes(rng, date, SYMS, miss=0.1)))
             date += 1
@@ -312,7 +317,14 @@ def uist_steps(sc, tr):
         pre = tr["snaps"][k]
         panic = isinstance(r, dict) and "panic" in r
         post = pre if panic else tr["snaps"][k + 1]
-        if op["op"] == "insert":
+        if op["op"] == "insert_many":
+            # compared as the insertion of its last order from the state just before it (the buffer as observed afterwards,
+            # less that order): the batch matters for the tick that follows, which starts from the observed buffer
+            o = op["orders"][-1]
+            if not panic:
+                pre = dict(post, buffer=post["buffer"][:-1])
+            gop = gc("Insert", g_uorder(dict(type=o["type"], symbol=o["symbol"], shares=o["shares"], price=o["price"])))
+        elif op["op"] == "insert":
             o = op["order"]
             gop = gc("Insert", g_uorder(dict(type=o["type"], symbol=o["symbol"], shares=o["shares"], price=o["price"])))
         elif op["op"] == "delete":
@@ -556,7 +568,9 @@ def oracle_c03(sc, steps):
         post_ids = [e["id"] for e in post["book"]]
         if len(set(post_ids)) != len(post_ids):
             return dict(step=k, what="two resting orders share an id", ids=post_ids)
-        if op["op"] == "insert":
+        if op["op"] == "insert_many":
+            pending_inserts += len(op["orders"])
+        elif op["op"] == "insert":
             pending_inserts += 1
             if post_ids != pre_ids or len(post["buffer"]) != len(pre["buffer"]) + 1:
                 return dict(step=k, what="insert did not just append to the buffer")
